@@ -66,8 +66,9 @@ def gen_session(prop: str, tier: str, seed: int) -> dict:
             if cands:
                 cb = rng.pick(cands)
         op = {'op': kind, 'm': m, 'dt': dt, 'cb': cb, 'vsub': rng.sub(),
-              'vstyle': rng.wpick([('generic', 5), ('real', 1.5), ('confined', 3), ('eigvec', 1), ('unit', 1 if style != 'hopping' else 8)]),
+              'vstyle': rng.wpick([('generic', 5), ('real', 1.5), ('confined', 3), ('eigvec', 1.6), ('unit', 1 if style != 'hopping' else 8)]),
               'confine': rng.randrange(1, n + 1), 'hermitian_flag': bool(herm and rng.chance(0.75)), 'numeig': rng.randrange(1, 4),
+              'eig_admix': rng.pick([None, None, 1e-9, 1e-10, 5e-11, 2e-11, 1e-11, 1e-7]),
               'persist': rng.chance(0.3), 'step': rng.pick(['v_inplace', 'v_inplace', 'A_inplace', 'none']),
               'vscale': rng.pick([1.0, 1.0, 0.25, 8.0, 1e-3, 1e3, 1e-14, 1e-120, 1e120]), 'vdtype': rng.pick(['complex', 'complex', 'float', 'float', 'int'])}
         env_kinds = [k for k in ('EIGSIGN', 'ULP') if k in enabled and rng.chance(0.5)]
@@ -212,6 +213,11 @@ class KRSession(SessionBase):
             k = min(n, max(1, int(op['confine']) % 3 + 1))
             idx = g.choice(n, size=k, replace=False)
             v = U[:, idx] @ (g.normal(size=k) + 1j * g.normal(size=k))
+            if op.get('eig_admix'):
+                # an eigenvector (combination) with a generic admixture far above rounding but far below any "converged" threshold
+                e = g.normal(size=n) + 1j * g.normal(size=n)
+                v = v / np.linalg.norm(v) + float(op['eig_admix']) * e / np.linalg.norm(e)
+                self.probe('start_vector_eigvec_with_tiny_admixture')
         else:
             v = g.normal(size=n) + 1j * g.normal(size=n)
         if np.linalg.norm(v) == 0:
@@ -364,6 +370,10 @@ class KRSession(SessionBase):
             return 'raised'
         self.judged[('C15', 'raised')] += 1
         if cls == 'grey':
+            if ko.full_space_judgeable(self.A, vb, m, normA):
+                # undecided Krylov dimension, but the routine cannot legitimately stop before n vectors (kr_oracle)
+                self.report('C15', ko.check_eigh_krylov(self.A, vb, m, numeig, out, cls, K, normA, Q, kret=kret.get('k')), 'eigh_krylov_full_space', cls, m)
+                return 'ok'
             self.skip('krylov_grey_zone')
             return 'grey'
         self.report('C15', ko.check_eigh_krylov(self.A, vb, m, numeig, out, cls, K, normA, Q, kret=kret.get('k')), 'eigh_krylov', cls, m)
